@@ -21,7 +21,7 @@ mod util;
 pub use example::to_rust_example_value;
 
 pub use ident::ToRustIdent;
-pub use r#enum::make_enum;
+pub use r#enum::{make_enum, make_enum_display};
 pub use record::make_item;
 pub use ty::{CanDerive, ToRustType};
 pub use util::*;
